@@ -952,6 +952,23 @@ fn exec(cx: &mut Ctx, op: &Op, pc: usize) -> Option<u64> {
             }));
             None
         }
+        Op::SelfWake => {
+            struct SelfWakeOnce(bool);
+            impl std::future::Future for SelfWakeOnce {
+                type Output = ();
+                fn poll(mut self: std::pin::Pin<&mut Self>, cx: &mut std::task::Context<'_>) -> std::task::Poll<()> {
+                    if self.0 {
+                        std::task::Poll::Ready(())
+                    } else {
+                        self.0 = true;
+                        cx.waker().wake_by_ref();
+                        std::task::Poll::Pending
+                    }
+                }
+            }
+            loom::future::block_on(SelfWakeOnce(false));
+            None
+        }
         Op::AwWake => {
             env.aw.wake();
             None
